@@ -40,6 +40,8 @@ def visit(node, env, pred, out, guards=()):
                             for i_, p_ in enumerate(s["pat"]["pats"]):
                                 if H.kind(p_) == "Bind":
                                     e2.roles[p_["name"]] = ("proj", i_, t)
+                    elif H.kind(s["pat"]) == "Slice":
+                        S.bind_slice(s["pat"], s["init"], e2)
                     elif H.kind(s["pat"]) in ("TupleStruct", "Struct", "Ref"):
                         # `let Some(x) = e else { .. }` / `let Expr::V { f: x, .. } = e else { .. }`
                         bind_pattern(s["pat"], s["init"], e2, e2)
